@@ -41,7 +41,7 @@ theorem guarded_sites_checked : guardedOK = true := by decide +kernel
 
 /-- how the sites are accounted for: (modelled — flag / cross-function flag / model branch —,
 safe by extracted guard (checked above), safe by prose argument: the trusted classifications) -/
-theorem classification_counts : classCounts = (86, 88, 83) := by decide +kernel
+theorem classification_counts : classCounts = (87, 93, 84) := by decide +kernel
 
 /-- the session layer has exactly three statement lists that close a reply channel — completion in
 `handlePeerMsg`, completion in `handleRequest`, the expiry sweep in `Loop` —; their clean-up operations
@@ -226,6 +226,21 @@ theorem dispatch_still_serves (evs : List DispEv) :
     ∃ k, (dispRun Cfg.current {} (evs ++ [.send, .reply k])).2.getLast? = some (.ok "matched") := by
   rw [guards_present]; exact disp_serves evs
 
+/-- **callHandler, the table of outbound connections**: any sequence of dials (handshake completing or
+not, the peer announcing the dialled id, another id, none), hang-ups and requests: the removal under
+the announced id never dereferences a missing entry, the handler stays alive -/
+theorem connection_table_total (evs : List ConnEv) :
+    (connRun Cfg.current {} evs).1.alive = true ∧ ∀ o ∈ (connRun Cfg.current {} evs).2, o.isPanic = false := by
+  rw [guards_present]
+  have := connRun_inv evs {} ⟨rfl, by simp⟩
+  exact ⟨this.1.1, this.2⟩
+
+/-- … and after any such history a request to ANY member is served over a live connection: no dead
+entry is ever left behind (what f4bcda2 repaired: see the witness below with `callIdMatch` off) -/
+theorem connection_table_still_serves (evs : List ConnEv) (x : Nat) :
+    ∃ i, (connStep Cfg.current (connRun Cfg.current {} evs).1 (.req x)).2 = .ok i := by
+  rw [guards_present]; exact conn_serves evs x
+
 theorem messageDispatch_total (f : Feed) : (messageDispatch Cfg.current f).isPanic = false := by
   rw [guards_present]; exact Handlers.messageDispatch_total f
 
@@ -282,6 +297,11 @@ example : (listenStep { Cfg.all with listenName := false } (.members [25, 3])).i
 example : listenStep Cfg.all (.members [25, 3, 20]) = .ok "2" := by decide
 example : (choseSubmitter { Cfg.all with groupInfoIds := false } 5 0).isPanic = true := by decide
 example : (messageDispatch { Cfg.all with mdNil := false } .nilMsg).isPanic = true := by decide
+-- the unrepaired table: one connection that announced another id leaves a dead entry: the member is never served again
+example : (connRun { Cfg.all with callIdMatch := false } {} [.dial 2 3 true, .hangup 2, .req 2]).2 = [.ok "dialled", .ok "kept", .err "stale"] := by decide
+example : (connRun Cfg.all {} [.dial 2 3 true, .hangup 2, .req 2, .hangup 2, .req 2]).2 = [.err "mismatch", .dropped, .ok "dialled", .ok "removed", .ok "dialled"] := by decide
+-- the seeded change (removal without the nil check) on the unrepaired table
+example : (connRun { Cfg.all with callIdMatch := false, callRemoveNil := false } {} [.dial 2 3 true, .hangup 2]).2.any Out.isPanic = true := by decide
 example : (dispRun Cfg.all {} [.send, .reply 0, .reply 0, .reply 3735928559, .send, .cancel 1, .reply 1]).2
     = [.ok "sent 0", .ok "matched", .dropped, .dropped, .ok "sent 1", .ok "", .ok "late"] := by decide
 example : (dispRun { Cfg.all with dispReplyNil := false } {} [.send, .reply 0, .reply 0]).2.any Out.isPanic = true := by decide
